@@ -44,6 +44,7 @@ def normalised(term, base_pred=None):
 
 
 def rule_stack(ctx):
+    own_check = [False]
     ctx.rule('R1', 'alignment safeguard', 5)
     ctx.rule('R2', 'dims-order agreement before a positional join', 2)
     ctx.rule('R3', 'placement coherence', 2)
@@ -112,6 +113,7 @@ def rule_stack(ctx):
             own = [q for q in raise_paths(ev) if exc_name(q.value) == 'ValueError' and any(
                 any(x[0] == 'call' and T.call_name(x) == '_get_axes' for x in T.subterms(a)) and any(x[0] == 'cmp' and x[1] in ('==', '!=') for x in T.subterms(a)) for a, pol in q.guards)]
             if own:
+                own_check[0] = True
                 ctx.holds('R1', 'stack(align=%s): labels of singleton axes compared as well' % align)
             else:
                 ctx.violated('R1', fi, 'singleton axes not compared', 'the only alignment check of stack() is _get_axes(), which skips every size-1 axis (axis.size == 1 or ...): inputs that carry '
@@ -119,7 +121,11 @@ def rule_stack(ctx):
         handlers = [p for p in raise_paths(ev) if any(a[0] == 'tryfail' for a, _ in p.guards)]
         if not handlers or any(exc_name(p.value) != 'ValueError' for p in handlers):
             ctx.violated('R1', fi, 'except ValueError', 'misaligned inputs must raise ValueError')
-    # _get_axes reference update rule
+    # _get_axes reference update rule - a necessary condition only while _get_axes is stack()'s *only* alignment test. Once stack() compares every input axis with
+    # the common axes itself (F41), what _get_axes lets through no longer decides C12 (broadcast_arrays still depends on it: C10-R3 decides it there).
+    if own_check[0]:
+        ctx.holds('R1', "stack() compares every input axis with the common axes itself: the internals of _get_axes are not part of this property's obligations (see C10-R3)")
+        return
     ga = ctx.fn(AL + '_get_axes')
     ev = run(ctx, ga, mode='fork', track_assign=True)
     okr = None
